@@ -592,5 +592,43 @@ def artefacts(run, p, fc):
             run.ob('C15-ARTEFACTS', '%s:%s' % (entry, name), not probs,
                    '%s, %s: %s' % (entry, name, '; '.join(probs[:2]) or ('nothing written' if passes else 'artefacts %s' % sorted(fs.written))),
                    fn=fc.methods[entry])
+    # several pairs through check_files share one message object: what is written and named for one pair is that pair's content
+    pairs = {'one': ('alpha\nbeta 977 ms\ngamma ray\nDELTA\n', ref), 'two': ('uno\nDOS\ntres\n', 'uno\ndos\ntres\n'),
+             'three': ('red\ngreen 5 ms\nBLUE\n', 'red\ngreen 71 ms\nblue\n')}
+    for order in (('one', 'two', 'three'), ('two', 'one'), ('three', 'two')):
+        files = {}
+        for k in order:
+            files['/w/%s.txt' % k], files['/ref/%s.txt' % k] = pairs[k]
+        before = dict(files)
+        failures, msg, fs = _run_cmp(p, fc, 'check_files', [['/w/%s.txt' % k for k in order], ['/ref/%s.txt' % k for k in order]],
+                                     {'ignore_patterns': [r'\d+']}, files)
+        n += 1
+        probs = []
+        if failures is None:
+            probs.append(msg)
+        else:
+            if failures != len(order):
+                probs.append('reports %s failures for %d differing pairs' % (failures, len(order)))
+            if any(before.get(q) != fs.files.get(q) for q in before):
+                probs.append('changes a file it was given')
+            for a_, b_ in _re.findall(r'^\s+(?:diff|cmp|fc)\s+(\S+)\s+(\S+)\s*$', msg, _re.M):
+                for q in (a_, b_):
+                    if q not in fs.files:
+                        probs.append('the message names %s, which does not exist' % q)
+            for q in sorted(fs.written):
+                if not q.startswith('/tmpdir/'):
+                    probs.append('writes outside the temporary directory: %s' % q)
+                    continue
+                owner = [k for k in order if k + '.txt' in q]
+                if len(owner) != 1:
+                    continue
+                own = set(pairs[owner[0]][0].split('\n')) | set(pairs[owner[0]][1].split('\n'))
+                others = set(l for k in order if k != owner[0] for t_ in pairs[k] for l in t_.split('\n')) - own
+                alien = [l for l in (fs.files.get(q) or '').split('\n') if l in others]
+                if alien:
+                    probs.append('%s, written for the pair %s, holds the line %r of another pair' % (q, owner[0], alien[0]))
+        run.ob('C15-ARTEFACTS', 'check_files:%s' % '-'.join(order), not probs,
+               'check_files over the pairs %s (one message object): %s' % (', '.join(order), '; '.join(probs[:2]) or 'every artefact holds lines of its own pair only: %s' % sorted(fs.written)),
+               fn=fc.methods['check_files'])
     n += binary_cases(run, p, fc)
-    run.floor('C15-ARTEFACTS', n, 41)
+    run.floor('C15-ARTEFACTS', n, 44)
